@@ -61,6 +61,13 @@ func (c *Ctx) RuleUpd() []*Result {
 						}
 					}
 				}
+				for _, k := range []string{"Prerelease", "Draft"} {
+					if fv, has := fields[k]; has {
+						if bv, isC := constBool(fv); !isC || bv {
+							problems = append(problems, k+" releases are enabled (possibly depending on the running version): a build can be moved to a release that is flagged as not final")
+						}
+					}
+				}
 				if fv, has := fields["Filters"]; has && !isNilConst(fv) {
 					problems = append(problems, "Filters are configured: in go-selfupdate v1.4.1 a configured filter replaces the OS/architecture suffix match (detect.go: hasFilters), so an asset built for another platform can be selected")
 				}
@@ -151,7 +158,55 @@ func (c *Ctx) RuleUpd() []*Result {
 		})
 	}
 	_ = updaterVals
-	return []*Result{validator, api, guard, found}
+	// UPD-VERSION: the running version handed to the updater is read when the command runs
+	version := &Result{Rule: "UPD-VERSION", MinInst: 1}
+	if cmd := c.Commands().ByName["self-update"]; cmd != nil {
+		for _, entry := range c.EntryRoots(cmd) {
+			allInstrs(entry, func(in ssa.Instruction) {
+				call, ok := in.(*ssa.Call)
+				if !ok {
+					return
+				}
+				sf := staticFn(&call.Call)
+				if sf == nil || load.ShortPkg(load.FnPkgPath(sf)) != "internal/updater" || len(call.Call.Args) == 0 {
+					return
+				}
+				if call.Call.Args[0].Type().Underlying().String() != "string" {
+					return
+				}
+				version.Instances++
+				key := load.FnName(entry) + ":running version handed to " + load.FnName(sf)
+				// must derive (through phis) from a load of cobra.Command.Version made in this function
+				okV := false
+				var walk func(v ssa.Value, d int)
+				walk = func(v ssa.Value, d int) {
+					if d > 4 {
+						return
+					}
+					switch x := v.(type) {
+					case *ssa.Phi:
+						for _, e := range x.Edges {
+							walk(e, d+1)
+						}
+					case *ssa.UnOp:
+						if fa, ok := x.X.(*ssa.FieldAddr); ok && isNamed(fa.X.Type(), cobraPkg, "Command") {
+							st := derefType(fa.X.Type()).Underlying().(*types.Struct)
+							if st.Field(fa.Field).Name() == "Version" {
+								okV = true
+							}
+						}
+					}
+				}
+				walk(call.Call.Args[0], 0)
+				if okV {
+					version.ok(key, c.P.InstrPos(call), "the version field of the root command, read when the command runs")
+				} else {
+					version.bad(key, c.P.InstrPos(call), "the running version is not read from the root command when self-update runs (it is computed earlier, e.g. when the command is constructed at package initialisation, before main sets the version): every build reports the placeholder version and reinstalls a release that is not newer")
+				}
+			})
+		}
+	}
+	return []*Result{validator, api, guard, found, version}
 }
 
 // configFields reads the fields of a struct literal passed by value.
